@@ -174,7 +174,7 @@ func genStream(g *rand.Rand, c *CallSpec, b Bias, classU bool) {
 	if g.IntN(5) == 0 {
 		c.MsgLen = drawSize(g)
 	} else if g.IntN(10) == 0 {
-		c.MsgLen = -1 // empty messages: zero bytes on the wire
+		c.MsgLen = -1 - g.IntN(2) // -1: empty messages, zero bytes on the wire; -2: every other message empty
 	}
 	switch c.Kind {
 	case KSStream:
@@ -551,7 +551,7 @@ func execMix(e *Env, pp any) {
 	// shutdown phase: stop the server; every Serve must return, and every
 	// served connection must have seen exactly one ConnBegin and one ConnEnd
 	e.Pt0()
-	srv.Stop()
+	e.Call("server.stop", srv.Stop)
 	if e.Settle() == Crashed {
 		return
 	}
@@ -613,6 +613,15 @@ func init() {
 		Gen: func(g *rand.Rand, tier string) any {
 			p := genMix(Bias{Streams: 0, Errors: 10, Metadata: 5, MaxCalls: 16, Bounded: true})(g, tier).(*MixParams)
 			p.Topo.Kind = TopoWS
+			p.Topo.Clients = 1 + g.IntN(2)
+			return p
+		}})
+	// mix.http: the same over the library's HTTP transport (one GoatOverHttp per party, POSTs
+	// through an in-memory RoundTripper), unary calls and class-B streams
+	Register(&Family{Name: "mix.http", Props: []string{"C01", "C02", "C05"}, New: func() any { return &MixParams{} }, Exec: execMix, ShrinkKeys: []string{"callers"},
+		Gen: func(g *rand.Rand, tier string) any {
+			p := genMix(Bias{Streams: 40, Errors: 10, Metadata: 5, MaxMsgs: 4, MaxCalls: 12, Bounded: true})(g, tier).(*MixParams)
+			p.Topo.Kind = TopoHTTP
 			p.Topo.Clients = 1 + g.IntN(2)
 			return p
 		}})
